@@ -61,7 +61,7 @@ def setup():
 def batches(tier):
     if tier == "quick":
         return [("clean", 420), ("faults", 160)]
-    return [("clean", 5000), ("faults", 1500)]
+    return [("clean", 24000), ("faults", 6000)]
 
 
 # ----------------------------------------------------------------------------
